@@ -139,19 +139,25 @@ func asciiStr(s string) bool { return verifrt.IsASCII(s) }
 // setupRoles stores four arbitrary role strings and an optional pending owner (RI R1).
 func (h *H) setupRoles() {
 	ctx := h.Env.Ctx
-	h.Role[slotOwner] = verifrt.NondetString("owner", roleCap)
-	h.Role[slotAttesterManager] = verifrt.NondetString("attmgr", roleCap)
-	h.Role[slotPauser] = verifrt.NondetString("pauser", roleCap)
-	h.Role[slotTokenController] = verifrt.NondetString("tokctl", roleCap)
+	h.Role[slotOwner], _ = verifrt.NondetAddrStr("owner")
+	h.Role[slotAttesterManager], _ = verifrt.NondetAddrStr("attmgr")
+	h.Role[slotPauser], _ = verifrt.NondetAddrStr("pauser")
+	h.Role[slotTokenController], _ = verifrt.NondetAddrStr("tokctl")
 	h.K.SetOwner(ctx, h.Role[slotOwner])
 	h.K.SetAttesterManager(ctx, h.Role[slotAttesterManager])
 	h.K.SetPauser(ctx, h.Role[slotPauser])
 	h.K.SetTokenController(ctx, h.Role[slotTokenController])
 	h.PendingSet = verifrt.NondetBool("pending_set")
 	if h.PendingSet {
-		h.Role[slotPending] = verifrt.NondetString("pending", roleCap)
+		h.Role[slotPending], _ = verifrt.NondetAddrStr("pending")
 		h.K.SetPendingOwner(ctx, h.Role[slotPending])
 	}
+}
+
+// nondetSubmitter is an arbitrary submitter string (same universe as the role holders).
+func nondetSubmitter() string {
+	s, _ := verifrt.NondetAddrStr("from")
+	return s
 }
 
 // setupRolesFixed is setupRoles with the pending slot always occupied (no case split); used where
@@ -247,6 +253,7 @@ func (h *H) setupRegistries() {
 
 // setupAdminState is the pre-state used by the administrative lemmas.
 func (h *H) setupAdminState(maxAtt int) {
+	verifrt.ExactFromHex(true)
 	h.setupRoles()
 	h.setupScalars()
 	h.setupAttesters(maxAtt)
@@ -340,16 +347,16 @@ func (h *H) callAdmin(idx int, from string) (ok bool, panicked bool) {
 	panicked = verifrt.Catch(func() {
 		switch idx {
 		case hUpdateOwner:
-			h.M.NewRole = verifrt.NondetAddr("new_role")
+			h.M.NewRole.Str, h.M.NewRole.Valid = verifrt.NondetAddrStr("new_role")
 			_, err = h.S.UpdateOwner(ctx, &types.MsgUpdateOwner{From: from, NewOwner: h.M.NewRole.Str})
 		case hUpdateAttesterManager:
-			h.M.NewRole = verifrt.NondetAddr("new_role")
+			h.M.NewRole.Str, h.M.NewRole.Valid = verifrt.NondetAddrStr("new_role")
 			_, err = h.S.UpdateAttesterManager(ctx, &types.MsgUpdateAttesterManager{From: from, NewAttesterManager: h.M.NewRole.Str})
 		case hUpdatePauser:
-			h.M.NewRole = verifrt.NondetAddr("new_role")
+			h.M.NewRole.Str, h.M.NewRole.Valid = verifrt.NondetAddrStr("new_role")
 			_, err = h.S.UpdatePauser(ctx, &types.MsgUpdatePauser{From: from, NewPauser: h.M.NewRole.Str})
 		case hUpdateTokenController:
-			h.M.NewRole = verifrt.NondetAddr("new_role")
+			h.M.NewRole.Str, h.M.NewRole.Valid = verifrt.NondetAddrStr("new_role")
 			_, err = h.S.UpdateTokenController(ctx, &types.MsgUpdateTokenController{From: from, NewTokenController: h.M.NewRole.Str})
 		case hAcceptOwner:
 			_, err = h.S.AcceptOwner(ctx, &types.MsgAcceptOwner{From: from})
